@@ -37,7 +37,7 @@ func init() { core.Register(c11{}) }
 
 func (c11) ID() string { return "C11" }
 func (c11) Rule() string {
-	return "plans (the signer answers 0 / 600 / 1200 ms after it signed): an artifact whose resolved descriptor carries 0-3 annotations, in (a) a recording repository that hands out its own stored descriptor (as a cache would), (b) an oras memory store or (c) a real on-disk OCI layout (through registry.NewOCIRepository or behind the fault-injecting wrapper); 1-3 consecutive notation.SignOCI calls with tag / digest / full / mismatching-digest references, metadata empty / disjoint / colliding with an artifact annotation / reserved-prefixed, JWS / COSE, sometimes the very same options again; faults: resolve error, blob push ok + manifest push error; re-open of the layout between calls; sim clock advancing between calls. One plan in eight is the concurrent variant: 2-3 signing hosts, each with its own repository client, sign the same artifact in one shared registry (fresh or already holding a signature) while the tape interleaves their registry calls. non-trivial: more than one call, or a call with metadata, or a fault; distinct: hash of (store kind, annotations, call sequence, faults, verdicts)"
+	return "plans (the signer answers 0 / 600 / 1200 ms after it signed): an artifact whose resolved descriptor carries 0-3 annotations, in (a) a recording repository that hands out its own stored descriptor (as a cache would), (b) an oras memory store or (c) a real on-disk OCI layout (through registry.NewOCIRepository or behind the fault-injecting wrapper); 1-3 consecutive notation.SignOCI calls with tag / digest / full / mismatching-digest references, metadata empty / disjoint / colliding with an artifact annotation / reserved-prefixed, JWS / COSE, sometimes the very same options again; faults: resolve error, blob push ok + manifest push error; re-open of the layout between calls; the tag moved to a new build between two calls (the first build stays reachable by digest); sim clock advancing between calls. One plan in eight is the concurrent variant: 2-3 signing hosts, each with its own repository client, sign the same artifact in one shared registry (fresh or already holding a signature) while the tape interleaves their registry calls. non-trivial: more than one call, or a call with metadata, or a fault; distinct: hash of (store kind, annotations, call sequence, faults, verdicts)"
 }
 func (c11) Components() map[string]string {
 	return map[string]string{
